@@ -3,7 +3,7 @@ from .. import core
 from . import _ecell_prop as E
 
 PID = 'C03'
-PROFILE_C03 = {'partitions': 0.7, 'traits': 0.6, 'lease': 0.5, 'failure': 0.5, 'renew': 0.3, 'pressure': 0.7, 'frozen': 0.5}
+PROFILE_C03 = {'partitions': 0.7, 'traits': 0.6, 'lease': 0.5, 'failure': 0.5, 'renew': 0.3, 'pressure': 0.7, 'frozen': 0.5, 'frozen_evict': 0.12}
 RULE_C03 = 'C03 profile: instances moved between allocations of different partitions, allocations gaining traits, servers frozen/down, leases with reboot times around now+lease, renewals under an advancing clock'
 
 
